@@ -34,7 +34,7 @@ Get(f, k, d) == IF k \in DOMAIN f THEN f[k] ELSE d
 Put(f, k, v) == [x \in DOMAIN f \cup {k} |-> IF x = k THEN v ELSE f[x]]
 ToSet(s) == {s[k] : k \in DOMAIN s}
 
-NoCfg == [idem |-> FALSE, retryMax |-> 0, flushMaxMsgs |-> 0, maxMsgBytes |-> 0, acks |-> "local",
+NoCfg == [sync |-> FALSE, idem |-> FALSE, retryMax |-> 0, flushMaxMsgs |-> 0, maxMsgBytes |-> 0, acks |-> "local",
           partitioner |-> "manual", interceptors |-> 0, maxReqSize |-> 0, family |-> "-", name |-> "-"]
 Phase0 == [closeCalled |-> FALSE, succClosed |-> FALSE, errClosed |-> FALSE, closeRet |-> FALSE, hung |-> FALSE]
 Stats0 == [traces |-> 0, events |-> 0, successes |-> 0, errors |-> 0, appends |-> 0, requests |-> 0,
@@ -90,7 +90,7 @@ TSuccess ==
           \cup When(known /\ cfg.partitioner = "manual" /\ subInfo[id].part # E.part, "success_partition_is_chosen")
           \cup When(known /\ cfg.partitioner # "manual" /\ id \in DOMAIN chosen /\ chosen[id] >= 0 /\ chosen[id] # E.part,
                     "success_partition_is_chosen")
-          \cup When(known /\ cfg.acks # "none" /\
+          \cup When(known /\ cfg.acks # "none" /\ ~cfg.sync /\
                     \E b \in samePartOk : (b < id /\ okAt[b][2] >= E.off) \/ (b > id /\ okAt[b][2] <= E.off),
                     "success_offset_order")
           \cup When(known /\ cfg.idem /\ CountIn(lg, id) # 1, "success_in_log_exactly_once")
@@ -120,7 +120,7 @@ TAppend ==
           \cup When(E.base # Len(old), "sim_inconsistent")
           \cup When(\E k \in DOMAIN E.ids : E.ids[k] \notin submitted, "nothing_foreign_appended")
           \cup When(E.bad # <<>>, "wire_content_equals_submitted")
-          \cup When(~Increasing(FirstCopies(new, {})), "log_order")
+          \cup When(~cfg.sync /\ ~Increasing(FirstCopies(new, {})), "log_order")
           \cup When(cfg.idem /\ ~NoDup(new), "no_duplicate_append")
   /\ stats' = Bump("appends")
   /\ UNCHANGED <<cfg, submitted, subInfo, outcome, okAt, chosen, wire, icount, phase>>
@@ -207,14 +207,15 @@ TChose ==
   /\ UNCHANGED <<cfg, submitted, subInfo, outcome, okAt, log, wire, icount, phase, viol>>
 
 TOther ==
-  /\ E.ev \in {"meta", "move", "dedup", "reply", "drop", "gate", "gate_timeout", "unsteered", "skip", "sim_error"}
+  /\ E.ev \in {"meta", "move", "dedup", "reply", "drop", "gate", "sync_mismatch", "gate_timeout", "unsteered", "skip", "sim_error"}
   /\ stats' = CASE E.ev = "unsteered" -> Bump("unsteered")
                 [] E.ev = "skip" -> Bump("skipped")
                 [] E.ev = "gate" -> Bump("gates")
                 [] E.ev = "sim_error" -> Bump("simerr")
                 [] E.ev = "reply" /\ (\E k \in DOMAIN E.kinds : E.kinds[k][2] \notin {"ok", "dupwin"}) -> Bump("retried")
                 [] OTHER -> Tick
-  /\ UNCHANGED <<cfg, submitted, subInfo, outcome, okAt, chosen, log, wire, icount, phase, viol>>
+  /\ viol' = viol \cup When(E.ev = "sync_mismatch", "sync_return_matches")
+  /\ UNCHANGED <<cfg, submitted, subInfo, outcome, okAt, chosen, log, wire, icount, phase>>
 
 TPanic ==
   /\ E.ev = "panic"
